@@ -27,8 +27,9 @@ HEADER = 'Require Import V.Repeat.Model.\nOpen Scope Z_scope.'
 F13_CLASS = 'repeatRetries_below_threshold'
 
 
-def O(rc=0, dur=1000, fail=False, sui=False, re=False):
-    return {'rc': rc, 'dur': dur, 'fail': fail, 'sui': sui, 're': re}
+def O(rc=0, dur=1000, fail=False, sui=False, re=False, ntf=False):
+    # ntf: the producers-finished notification arrives while THIS poll's task execution is in flight
+    return {'rc': rc, 'dur': dur, 'fail': fail, 'sui': sui, 're': re, 'ntf': ntf}
 
 
 def S(dt=5000, evs=(), o=None):
@@ -62,7 +63,8 @@ def coq_out(o):
 def coq_steps(steps):
     out = []
     for i, st in enumerate(steps):
-        out.append('(%s, (%s : list event), %s)' % (cZ(0 if i == 0 else st['dt']), clist(st['evs']), coq_out(st['o'])))
+        out.append('(%s, (%s : list event), %s, (%s : list event))' % (
+            cZ(0 if i == 0 else st['dt']), clist(st['evs']), coq_out(st['o']), clist(['Notify'] if st['o'].get('ntf') else [])))
     return clist(out)
 
 
@@ -91,6 +93,12 @@ def f13_class(cfg, steps):
 
 def predicate(ctx, cfg, steps, res):
     case = {'cfg': cfg, 'steps': steps}
+    # a notification that arrives during the execution of poll i takes effect from poll i+1 on: for the predicate
+    # it is a Notify at the very beginning of step i+1
+    steps = [dict(st, evs=list(st['evs'])) for st in steps]
+    for i, st in enumerate(steps):
+        if st['o'].get('ntf') and i + 1 < len(steps):
+            steps[i + 1]['evs'].insert(0, 'Notify')
     obs, execs = res['obs'], res['execs']
     n = len(obs)
     if res['errors']:
@@ -153,7 +161,7 @@ def explore(ctx, cases, label='C13 trace'):
             res = drv.run_case(cfg, steps)
             used = steps[:res['nsteps']]
             predicate(ctx, cfg, used, res)
-            notified_running = any('Notify' in st['evs'] for st in used)
+            notified_running = any('Notify' in st['evs'] or st['o'].get('ntf') for st in used)
             nontriv = bool(res['execs']) and notified_running
             ctx.case([cfg, used], nontriv)
             ctx.count('polls_%02d' % min(len(used), 16))
@@ -174,10 +182,10 @@ def explore(ctx, cases, label='C13 trace'):
                             'finished': res['finished'], 'final': res['obs'][-1]}, limit=4)
     finally:
         drv.close()
-    bad = ctx.model_mismatches(HEADER, [t[0] for t in terms], 'check_case', chunk=250)
+    bad = ctx.model_mismatches(HEADER, [t[0] for t in terms], 'check_case2', chunk=250)
     for k, i in enumerate(bad):
         _, cfg, used, res = terms[i]
-        m = ctx.model_eval(HEADER, 'let r := run_steps %s (init %s) %s in (fst r, mon_done (snd r), rev (execs (snd r)))'
+        m = ctx.model_eval(HEADER, 'let r := run_steps2 %s (init %s) %s in (fst r, mon_done (snd r), rev (execs (snd r)))'
                            % (coq_cfg(cfg), coq_cfg(cfg), coq_steps(used))) if k < 2 else ''
         ctx.disagree({'cfg': cfg, 'steps': used}, {'obs': res['obs'], 'finished': res['finished'],
                                                    'execs': [e[:3] for e in res['execs']]}, m,
@@ -211,6 +219,13 @@ def exhaustive(n, cfgs, max_outs):
                             evs.append('Notify')
                         steps.append(S(5000, evs, pat(i)))
                     cases.append((cfg, steps))
+                    if np_ is not None and np_ >= 1 and len(outs) <= 1:
+                        # the same placement, but the notification arrives during the execution of the previous poll
+                        st2 = [dict(st, evs=[e for e in st['evs'] if not (j == np_ and e == 'Notify')], o=dict(st['o']))
+                               for j, st in enumerate(steps)]
+                        st2[np_ - 1]['o']['ntf'] = True
+                        st2[np_ - 1]['o']['sui'] = False   # (the 30 s kill delay cannot also expire within that execution)
+                        cases.append((cfg, st2))
     return cases
 
 
@@ -228,7 +243,11 @@ def gen_random(rng, thorough):
         if i <= last_out_allowed and rng.random() < 0.3:
             evs.append('Out')
         if notify_at == i:
-            evs.append('Notify')
+            if i >= 1 and rng.random() < 0.35:
+                steps[i - 1]['o']['ntf'] = True     # ... it arrives while the previous poll's execution is in flight
+                steps[i - 1]['o']['sui'] = False
+            else:
+                evs.append('Notify')
         elif notify_at is not None and i > notify_at:
             r = rng.random()
             if r < 0.04:
